@@ -1064,18 +1064,21 @@ class DiskRefsContainer(RefsContainer):
                     if ref == HEADREF:
                         raise ValueError("cannot pack HEAD")
 
-                    # remove any loose refs pointing to this one -- please
-                    # note that this bypasses remove_if_equals as we don't
-                    # want to affect packed refs in here
-                    with suppress(OSError):
-                        os.remove(self.refpath(ref))
-
                     if target is not None:
                         packed_refs[ref] = target
                     else:
                         packed_refs.pop(ref, None)
 
                 write_packed_refs(f, packed_refs, self._peeled_refs)
+
+            # Only now that the new packed-refs file is in place, remove any
+            # loose refs pointing to these -- a reader (or a crash) in
+            # between must still find the ref.  Please note that this
+            # bypasses remove_if_equals as we don't want to affect packed
+            # refs in here.
+            for ref in new_refs:
+                with suppress(OSError):
+                    os.remove(self.refpath(ref))
         finally:
             # Do not stat the path and associate that identity with the data
             # just written: another writer can replace packed-refs after the
@@ -1397,10 +1400,14 @@ class DiskRefsContainer(RefsContainer):
                 # may only be packed, or otherwise unstorable
                 found = False
 
+            # Remove the packed entry first: were the loose file removed
+            # first, a reader (or a crash) in between would see the older
+            # packed value come back.
+            self._remove_packed_ref(name)
+
             if found:
                 os.remove(filename)
 
-            self._remove_packed_ref(name)
             self._log(
                 name,
                 old_ref,
